@@ -329,6 +329,9 @@ func genSchema(r *common.Rand) *Schema {
 	s.Dirs = append(s.Dirs, &DD{Name: "dq", Locs: []string{"QUERY"}})
 	s.Dirs = append(s.Dirs, &DD{Name: "df", Args: []IV{iv("x", NN(N("Int")), nil), iv("y", N("String"), VStr("d"))}, Locs: subset("FIELD")})
 	s.Dirs = append(s.Dirs, &DD{Name: "drep", Args: []IV{iv("n", N("Int"), nil)}, Locs: subset("FIELD"), Rep: true})
+	// repeatable on every selection kind, with a required and an optional argument
+	s.Dirs = append(s.Dirs, &DD{Name: "rtag", Args: []IV{iv("k", NN(N("Int")), nil), iv("s", N("String"), nil)},
+		Locs: []string{"FIELD", "INLINE_FRAGMENT", "FRAGMENT_SPREAD"}, Rep: true})
 	s.Dirs = append(s.Dirs, &DD{Name: "dfrag", Args: []IV{iv("e", N("E0"), VEnum("B"))}, Locs: []string{"FRAGMENT_DEFINITION", "FRAGMENT_SPREAD", "INLINE_FRAGMENT"}})
 	if r.Chance(2, 3) {
 		s.Dirs = append(s.Dirs, &DD{Name: "dvar", Locs: []string{"VARIABLE_DEFINITION"}})
